@@ -301,6 +301,36 @@ def function_case(case):
     return {"v": v, "nt": [case], "stats": {"evals": 1}, "sample": {"function": fn, "param": param, "value": repr(val)}}
 
 
+def mlcl_sets_case(case):
+    """Inconsistent combination of must-link / cannot-link pairs: rejected (and the model left undecorated) iff contradictory."""
+    import itertools
+    from gemclus import add_mlcl_constraint
+    from gemclus.linear import LinearModel
+    from oracles import mlcl as mref
+    idx, ml_mask = case
+    allp = list(itertools.combinations(idx, 2))
+    ml = [(p if (t + ml_mask) % 2 else p[::-1]) for t, p in enumerate(allp) if ml_mask >> t & 1]
+    v, nt = [], 0
+    for cl_mask in range(1 << len(allp)):
+        cl = [(p if (t + cl_mask) % 3 else p[::-1]) for t, p in enumerate(allp) if cl_mask >> t & 1]
+        expected = mref.consistent(ml, cl)
+        model = LinearModel()
+        plain = model._batchify
+        try:
+            add_mlcl_constraint(model, ml or None, cl or None, 1.0)
+            accepted = True
+        except ValueError:
+            accepted = False
+        where = dict(target="add_mlcl_constraint", param="must_link+cannot_link")
+        if accepted != expected:
+            v.append(violation("accepted_out_of_domain" if accepted else "rejected_in_domain",
+                               {"must_link": ml, "cannot_link": cl, "accepted": accepted, "expected": expected}, **where))
+        elif not accepted and (getattr(model._batchify, "indices", None) is not None or model._batchify != plain):
+            v.append(violation("refused_but_decorated", {"must_link": ml, "cannot_link": cl}, **where))
+        nt += bool(ml and cl)
+    return {"v": v[:6], "stats": {"evals": 1 << len(allp), "nt_distinct": nt}, "sample": {"indices": list(idx), "must_link": ml}}
+
+
 def explorers(tier, seed):
     c1 = []
     for name, dom in DOMAINS.items():
@@ -331,7 +361,12 @@ def explorers(tier, seed):
     c4 += [("print", "print_kauri_tree", "feature_names", val, True, seed) for val in (None, ["a", "b", "c"])] + \
           [("print", "print_kauri_tree", "feature_names", val, False, seed) for val in (3, OBJ)] + \
           [("print", "print_kauri_tree", "kauri_tree", val, False, seed) for val in (None, 3, "tree", OBJ)]
+    c5 = [(idx, m) for idx in ((0, 1, 2, 3), (9, 2, 40, 5)) for m in range(64)]
     return [
+        Explorer("mlcl_pair_set_combinations", "props.c16", "mlcl_sets_case", c5, chunk=8, floor=100,
+                 rule="inconsistent combination for add_mlcl_constraint: ALL 2^6 must-link x 2^6 cannot-link pair sets over 4 sample indices "
+                      "(contiguous and unordered non-contiguous), mixed orientations; rejected with ValueError and the model left undecorated iff a "
+                      "cannot-link pair lies inside a must-link component (union-find oracle); non-trivial = both sets non-empty"),
         Explorer("estimator_hyperparameters", "props.c16", "param_case", c1, chunk=16, floor=300,
                  rule="18 estimators x every constructor hyperparameter x probe menu (in-domain: boundary and typical values; out-of-domain: just outside each "
                       "interval end, 0, -1, None, wrong types str/float-for-int/list/object()); one parameter deviates from a valid base; in-domain must fit, "
